@@ -161,6 +161,15 @@ def stream_fmt(ctx, athlib):
             ndis += 1
             ctx.fail('js:formatSecondsAsTime', [x, p], 'python: %s' % show(im), 'js: %s' % show(j),
                      note='ports differ (model: %r)' % (mo[1],), replay_py=replay_both('athlib.format_seconds_as_time(%r, %r)' % (x, p), ['fmt', x, p]))
+    # odd precision arguments (no precision given as an explicit null, text, out of range): both ports refuse or both answer alike
+    odd = [(x, p) for x in (27.3, 65.5, 3599.5, 0, 12, 59.999) for p in (None, 'hi', 4, -1, 7, '2', 1.5)]
+    jo = js_run([['fmt', x, p] for x, p in odd])
+    for (x, p), j in zip(odd, jo):
+        im = py_canon(TC.call(f, x, p))
+        if not same_value(im, j):
+            ctx.fail('js:formatSecondsAsTime', [x, p], 'python: %s' % show(im), 'js: %s' % show(j), note='ports differ (odd precision argument)',
+                     replay_py=replay_both('athlib.format_seconds_as_time(%r, %r)' % (x, p), ['fmt', x, p]))
+    ctx.count(len(odd), 'fmt_odd_precision_lines')
     ctx.count(len(reqs), 'fmt_lines')
     ctx.stats['fmt_python_vs_model_disagreements'] = npm
     ctx.stats['fmt_js_vs_model_disagreements'] = njm
